@@ -10,7 +10,7 @@ const C02_RULES = new Set(['temp-unused', 'temp-nonlinear', 'temp-order', 'temp-
 
 module.exports = mk({
   id: 'C02',
-  families: ['A', 'B', 'C', 'G', 'M', 'S', 'T', 'H', 'Q', 'R', 'N', 'L'],
+  families: ['A', 'B', 'C', 'G', 'M', 'S', 'T', 'H', 'Q', 'R', 'N', 'L', 'K'],
   corpus: { configs: ['FULL', 'PLUS_ONLY', 'METHODS_ONLY'], quickLimit: 60 },
   extra: async () => {
     const leaves = []
@@ -32,6 +32,9 @@ module.exports = mk({
       'x = a <!-- b', 'x = function () { return\na }', 'debugger;', 'x = import("m"); y = import.meta;'.replace('; y = import.meta;', ';'), "x = a.if.class.new.delete; y = { if: 1, class: 2 };", 'x = a\n/re/g.test(b)', 'x = (function () {}).call(this); y = (() => {})(); y = (class {}).name;', 'x = ((a)); y = ((a, b)); y = ([a] = b); y = ({ a } = b);'
     ]
     for (const cfg of ['FULL', 'COMMENTS']) EXOTIC.forEach((st, i) => { stats.states++; stats.transitions++; leaves.push({ fam: 'exotic', key: 'exotic¦' + i + '¦' + cfg, code: `function f(a, b, c, d, e, o, g, X, x, y) { x = a + b; ${st}\n}`, config: cfg, desc: 'exotic' + i }) })
+    // literal tokens whose spelling the printer may change: the VALUE (cooked and raw) has to survive
+    const F = require('../grammar/families')
+    for (const tok of F.lexicalTokens('quick')) for (const place of F.LEX_PLACES.slice(0, 2)) { stats.states++; stats.transitions++; leaves.push({ fam: 'lexical', key: 'lex¦' + place.length + '¦' + tok, code: place.split('@@').join(tok), config: 'FULL', desc: 'lexical token' }) }
     return { leaves, stats }
   },
   oracle ({ a, v, res }) {
